@@ -1277,13 +1277,21 @@ class Emitter:
         best = decl
         for nid, n in self.tu.byid.items():
             if n.get('kind') == 'VarDecl' and n.get('name') == decl.get('name') and n.get('init') and \
-                    (n.get('previousDecl') == did or nid == did or n.get('mangledName') == decl.get('mangledName')):
+                    (n.get('previousDecl') == did or nid == did or
+                     (decl.get('mangledName') is not None and n.get('mangledName') == decl.get('mangledName'))):
                 best = n
                 break
-        p = self.tu.semantic_parent(best) if best.get('parentDeclContextId') else self.tu.parent.get(decl['id'])
+        if best.get('parentDeclContextId') in self.tu.byid:
+            p = self.tu.byid[best['parentDeclContextId']]
+        elif decl.get('parentDeclContextId') in self.tu.byid:
+            p = self.tu.byid[decl['parentDeclContextId']]
+        else:
+            p = self.tu.parent.get(best['id']) or self.tu.parent.get(decl['id'])
+        while p is not None and p.get('kind') in ('LinkageSpecDecl', 'VarTemplateDecl'):
+            p = self.tu.parent.get(p.get('id'))
         pre = self.tu.scope_name(p) if p is not None and p.get('kind') in ('NamespaceDecl',) + REC_KINDS else ''
         cn = ('g_' + pre + '__' if pre else 'g_') + decl['name']
-        key = decl.get('mangledName') or cn
+        key = cn
         if key not in self.globals:
             self.globals[key] = None
             t = best['type']
